@@ -42,7 +42,8 @@ func zzCall7(ch *channel, entry int, p []byte) (int64, error) {
 
 // ZZ_C11_AfterClose: after Close(arg) has returned, every write entry point fails and transmits nothing.
 // pre bit 0: one payload is accepted (and sent) before the Close, so that the sender has run;
-// pre bit 1: the channel's parent context is cancelled before Close is called.
+// pre bit 1: the channel's parent context is cancelled before Close is called;
+// pre bit 2: the payload written after Close is empty.
 func ZZ_C11_AfterClose(q, until, entry, closeArg, pre int) {
 	tr := newZZTransport()
 	pl := NewPipeline()
@@ -65,7 +66,11 @@ func ZZ_C11_AfterClose(q, until, entry, closeArg, pre int) {
 	}
 	ch.Close(zzCloseArg(closeArg))
 	sent := len(tr.log)
-	n, err := zzCall7(ch, entry, []byte{7, 8, 9})
+	payload := []byte{7, 8, 9}
+	if pre&4 != 0 {
+		payload = payload[:0] // pre bit 2: an empty payload is refused like any other
+	}
+	n, err := zzCall7(ch, entry, payload)
 	vrt.Assert(err != nil, "c11-write-after-close-fails")
 	vrt.Assert(n <= 0, "c11-write-after-close-reports-nothing-written")
 	if q > 0 {
